@@ -182,6 +182,10 @@ def tt_dimscheck(  # noqa: PLR0912
         raise ValueError(
             "Negative dims aren't allowed in pyttb, see exclude_dims argument instead"
         )
+    if np.any(dim_array >= N):
+        assert False, "dims must contain values in [0,self.dims)"
+    if np.unique(dim_array).size != dim_array.size:
+        assert False, "dims must not contain repeated modes"
 
     # Save dimensions of dims
     P = len(dim_array)
